@@ -12,7 +12,7 @@ def textbook(rule, m, k, r):
 
 class C10(Prop):
     layouts = True
-    translators = ['scoring', 'validators']   # weights, winners, break_tie regenerated from deterministic_scoring.py / utils.py on every run
+    translators = ['scoring', 'validators', 'wrappers']   # weights, winners, break_tie regenerated from deterministic_scoring.py / utils.py on every run
     pid = "C10"
     sources = ["socialchoicekit/deterministic_scoring.py", "socialchoicekit/utils.py"]
     groups = {
